@@ -7,7 +7,85 @@
    `sumZ` = integer sum of a list; `dot_spec a b K i j` = sum_k a[i,k]*b[k,j];
    `is_max/is_min m l` = m is a maximum/minimum of l; `first_index m l n` = n is the first position of m in l.
    All statements are for ALL shapes, widths, max_bits and values. *)
-From PyRTL Require Import Base.PyZ Lib.Matrix Lib.MatrixProofs.
+From PyRTL Require Import Base.PyZ Lib.Matrix Lib.MatrixProofs Gen.MatrixRules Lib.MatrixGen.
+
+(* ---------------------------------------------------------------- translator tie
+   Gen/MatrixRules.v is regenerated from pyrtl/rtllib/matrix.py on every run (py/genfrag_C19.py); the
+   model's width rules, constructor slice arithmetic, put index handling and reshape index arithmetic
+   ARE what the source says now. *)
+Theorem C19_gen_ctor_bits : forall b mb, ctor_bits_gen b mb = capb b mb.
+Proof. exact gen_ctor_bits. Qed.
+Print Assumptions C19_gen_ctor_bits.
+
+Theorem C19_gen_add_bits : forall a b,
+  bits (madd a b) = ctor_bits_gen (add_bits_gen (bits a) (bits b)) (maxb a).
+Proof. exact gen_add_bits. Qed.
+Print Assumptions C19_gen_add_bits.
+
+Theorem C19_gen_sub_bits : forall a b,
+  bits (msub a b) = ctor_bits_gen (sub_bits_gen (bits a) (bits b)) (maxb a).
+Proof. exact gen_sub_bits. Qed.
+Print Assumptions C19_gen_sub_bits.
+
+Theorem C19_gen_mul_bits : forall a b,
+  bits (mmul a b) = ctor_bits_gen (mul_bits_gen (bits a) (bits b)) (maxb a).
+Proof. exact gen_mul_bits. Qed.
+Print Assumptions C19_gen_mul_bits.
+
+Theorem C19_gen_scal_bits : forall a ws s,
+  bits (mscal a ws s) = ctor_bits_gen (scal_bits_gen (bits a) ws) (maxb a).
+Proof. exact gen_scal_bits. Qed.
+Print Assumptions C19_gen_scal_bits.
+
+Theorem C19_gen_matmul_bits : forall a b,
+  bits (mmatmul a b) =
+  ctor_bits_gen (matmul_bits_gen (Z.of_nat (cols_of a)) (Z.of_nat (rows_of b)) (bits a) (bits b)) (maxb a).
+Proof. exact gen_matmul_bits. Qed.
+Print Assumptions C19_gen_matmul_bits.
+
+Theorem C19_gen_ctor_layout : forall r c b mb v i j, 0 <= i < Z.of_nat r -> 0 <= j < Z.of_nat c ->
+  let b' := ctor_bits_gen b mb in
+  let start := ctor_start_gen i j b' (Z.of_nat c) in
+  el (mx_in r c b mb v) (Z.to_nat (ctor_row_gen (Z.of_nat r) i)) (Z.to_nat (ctor_col_gen (Z.of_nat c) j))
+  = (v / 2 ^ start) mod 2 ^ (ctor_stop_gen start b' - start).
+Proof. exact gen_ctor_layout. Qed.
+Print Assumptions C19_gen_ctor_layout.
+
+Theorem C19_gen_put_ix : forall count m ix, 0 <= m <= 2 ->
+  put_ix_gen count m ix = put_ix count (mode_of m) ix.
+Proof. exact gen_put_ix. Qed.
+Print Assumptions C19_gen_put_ix.
+
+Theorem C19_gen_put_position : forall a ix x,
+  set_flat a ix x =
+  MkMx (bits a) (maxb a)
+    (mk (rows_of a) (cols_of a) (fun i j =>
+       if Nat.eqb i (Z.to_nat (put_row_gen ix (Z.of_nat (cols_of a)))) &&
+          Nat.eqb j (Z.to_nat (put_col_gen ix (Z.of_nat (cols_of a))))
+       then trunc (bits a) x else el a i j)).
+Proof. exact gen_put_position. Qed.
+Print Assumptions C19_gen_put_position.
+
+Theorem C19_gen_reshape_C : forall r c ix, (0 < c)%nat ->
+  src_C r c ix = (Z.to_nat (reshape_C_r_gen (Z.of_nat ix) (Z.of_nat r) (Z.of_nat c)),
+                  Z.to_nat (reshape_C_c_gen (Z.of_nat ix) (Z.of_nat r) (Z.of_nat c))).
+Proof. exact gen_reshape_C. Qed.
+Print Assumptions C19_gen_reshape_C.
+
+Theorem C19_gen_reshape_F : forall r c ix, (0 < r)%nat ->
+  src_F r c ix = (Z.to_nat (reshape_F_r_gen (Z.of_nat ix) (Z.of_nat r) (Z.of_nat c)),
+                  Z.to_nat (reshape_F_c_gen (Z.of_nat ix) (Z.of_nat r) (Z.of_nat c))).
+Proof. exact gen_reshape_F. Qed.
+Print Assumptions C19_gen_reshape_F.
+
+Theorem C19_gen_resolve_shape : forall count nr nc,
+  resolve_shape count nr nc =
+  if (nr =? -1) && (nc =? -1) then None
+  else let '(r, c) := if nr =? -1 then (reshape_infer_rows_gen count nc, nc)
+                      else if nc =? -1 then (nr, reshape_infer_cols_gen count nr) else (nr, nc) in
+       if negb (reshape_size_bad_gen r c count) && (0 <? r) && (0 <? c) then Some (r, c) else None.
+Proof. exact gen_resolve_shape. Qed.
+Print Assumptions C19_gen_resolve_shape.
 
 (* ---------------------------------------------------------------- WireVector <-> Matrix *)
 Theorem C19_decode_encode : forall b l, 0 <= b -> all_inrange b l ->
@@ -238,34 +316,35 @@ Theorem C19_argmax_all_first_max : forall r c a bo, wfx r c a ->
 Proof. exact argmax_all_first_max. Qed.
 Print Assumptions C19_argmax_all_first_max.
 
-(* The full statement for argmax along an axis (no condition on the `bits` argument) ... *)
+(* The full statement for argmax along an axis ... *)
 Definition C19_argmax_axis0_full_statement : Prop :=
   forall r c a bo j, wfx r c a -> mrange a -> (j < c)%nat ->
   exists m n, is_max m (col a j) /\ first_index m (col a j) n /\
               el (margmax a Ax0 bo) 0 j = Z.of_nat n mod 2 ^ bits (margmax a Ax0 bo).
 
-(* ... holds when `bits` is at least the element width (in particular for the default bits=None) ... *)
+(* ... holds for every `bits` argument when the element width is at most 64 (the intermediate
+   max(matrix, axis, bits=matrix.bits) is built with the default max_bits=64) ... *)
 Theorem C19_argmax_axis0_first_max_partial : forall r c a bo j, wfx r c a -> mrange a -> (j < c)%nat ->
-  bits a <= capb (default_bits a bo) 64 ->
+  bits a <= 64 ->
   exists m n, is_max m (col a j) /\ first_index m (col a j) n /\
               el (margmax a Ax0 bo) 0 j = Z.of_nat n mod 2 ^ bits (margmax a Ax0 bo).
 Proof. exact argmax_axis0_first_max. Qed.
 Print Assumptions C19_argmax_axis0_first_max_partial.
 
 Theorem C19_argmax_axis1_first_max_partial : forall r c a bo i, wfx r c a -> mrange a -> (i < r)%nat ->
-  bits a <= capb (default_bits a bo) 64 ->
+  bits a <= 64 ->
   exists m n, is_max m (row a i) /\ first_index m (row a i) n /\
               el (margmax a Ax1 bo) 0 i = Z.of_nat n mod 2 ^ bits (margmax a Ax1 bo).
 Proof. exact argmax_axis1_first_max. Qed.
 Print Assumptions C19_argmax_axis1_first_max_partial.
 
-(* ... and is FALSE of the code as it is for bits < element width (the maximum is truncated to `bits`
-   before it is compared with the elements): signature 'argmax:bits-truncates-max' *)
-Theorem C19_argmax_small_bits_refuted :
+(* ... and is false beyond: 65-bit elements (max_bits=100), column [2^64; 2^64+1] -> index 0.
+   Outside the property's quantifier (element widths 1..8); recorded, not searched. *)
+Theorem C19_argmax_wide_elements_refuted :
   exists a bo j m n, wfx 2 1 a /\ mrange a /\ is_max m (col a j) /\ first_index m (col a j) n /\
      el (margmax a Ax0 bo) 0 j <> Z.of_nat n mod 2 ^ bits (margmax a Ax0 bo).
-Proof. exact argmax_small_bits_refuted. Qed.
-Print Assumptions C19_argmax_small_bits_refuted.
+Proof. exact argmax_wide_elements_refuted. Qed.
+Print Assumptions C19_argmax_wide_elements_refuted.
 
 (* ---------------------------------------------------------------- indexing, put, stacking *)
 (* an int key follows Python sequence indexing (negative counts from the end, out of range raises) *)
@@ -274,13 +353,21 @@ Theorem C19_getitem_int_index : forall n z, 0 < n ->
 Proof. exact key_get_int. Qed.
 Print Assumptions C19_getitem_int_index.
 
-(* start/stop follow Python; the step is IGNORED by the code as it is (m[::2] returns every row:
-   signature 'getitem:slice-step-ignored'), hence the statement holds for every st *)
-Theorem C19_getitem_slice_bounds : forall n s e st, 0 < n ->
+(* start/stop follow Python; a step other than None / 1 is rejected (never silently ignored) *)
+Theorem C19_getitem_slice_bounds : forall n s e st, 0 < n -> step_accepted st = true ->
   (forall z, s = Some z -> - n <= z <= n) -> (forall z, e = Some z -> - n <= z <= n) ->
   key_get n (KSl s e st) = Some (py_bound n 0 s, py_bound n n e).
 Proof. exact key_get_slice. Qed.
 Print Assumptions C19_getitem_slice_bounds.
+
+Theorem C19_getitem_step_rejected : forall n s e z, z <> 1 -> key_get n (KSl s e (Some z)) = None.
+Proof. exact key_get_step_rejected. Qed.
+Print Assumptions C19_getitem_step_rejected.
+
+(* __setitem__ resolves int keys like __getitem__ (m[-1, c] = v addresses the last row) *)
+Theorem C19_setitem_int_index : forall n z, key_set n (KInt z) = key_get n (KInt z).
+Proof. exact key_set_int. Qed.
+Print Assumptions C19_setitem_int_index.
 
 Theorem C19_getitem_block : forall r c a kr kc rs re cs ce i j, wfx r c a -> mrange a -> bits a <= maxb a ->
   key_get (Z.of_nat r) kr = Some (rs, re) -> key_get (Z.of_nat c) kc = Some (cs, ce) ->
@@ -289,12 +376,6 @@ Theorem C19_getitem_block : forall r c a kr kc rs re cs ce i j, wfx r c a -> mra
               el res i j = el a (Z.to_nat rs + i) (Z.to_nat cs + j).
 Proof. exact getitem_block. Qed.
 Print Assumptions C19_getitem_block.
-
-(* FALSE of the code as it is: m[-1, c] = v raises (signature 'setitem:neg1-tuple-index-raises') *)
-Theorem C19_setitem_neg1_refuted :
-  exists a x, wfx 2 2 a /\ key_get 2 (KInt (-1)) = Some (1, 2) /\ msetitem_s a (KInt (-1)) (KInt 0) x = None.
-Proof. exact setitem_neg1_refuted. Qed.
-Print Assumptions C19_setitem_neg1_refuted.
 
 Theorem C19_put_index_raise : forall count ix, 0 < count ->
   put_ix count PRaise ix = if (- count <=? ix) && (ix <? count) then Some (from_end count ix) else None.
@@ -316,17 +397,22 @@ Theorem C19_put_writes_flat_position : forall r c a ix x i j, wfx r c a -> 0 <= 
 Proof. exact set_flat_spec. Qed.
 Print Assumptions C19_put_writes_flat_position.
 
-(* FALSE of the code as it is: a row-vector Matrix v is indexed against count of SELF
-   (signature 'put:matrix-v-bound-uses-self-count') *)
-Theorem C19_put_matrix_value_refuted :
-  exists a v ind, mput_list a ind (nth 0 (dat v) []) PRaise <> mput_mat a ind v PRaise.
-Proof. exact put_matrix_value_refuted. Qed.
-Print Assumptions C19_put_matrix_value_refuted.
+(* a row-vector Matrix of values behaves like the list of its elements *)
+Theorem C19_put_matrix_value_as_list : forall a ind v mode, nth 0 (dat v) [] <> [] ->
+  mput_mat a ind v mode = mput_list a ind (nth 0 (dat v) []) mode.
+Proof. exact put_matrix_value_as_list. Qed.
+Print Assumptions C19_put_matrix_value_as_list.
 
-(* FALSE of the code as it is: dot(1x1 Matrix, Matrix) raises (signature 'dot:1x1-first-raises') *)
-Theorem C19_dot_1x1_first_refuted : exists a b, mdot a b = None /\ mdot b a <> None.
-Proof. exact dot_1x1_first_refuted. Qed.
-Print Assumptions C19_dot_1x1_first_refuted.
+(* dot with a 1x1 operand is the scalar product (C19_scalar_mul_mod), on either side *)
+Theorem C19_dot_1x1_first : forall a b, is11 a = true -> is11 b = false ->
+  mdot a b = Some (mscal b (bits a) (el a 0 0)).
+Proof. exact dot_1x1_first. Qed.
+Print Assumptions C19_dot_1x1_first.
+
+Theorem C19_dot_1x1_second : forall a b, is11 a = false -> is11 b = true ->
+  mdot a b = Some (mscal a (bits b) (el b 0 0)).
+Proof. exact dot_1x1_second. Qed.
+Print Assumptions C19_dot_1x1_second.
 
 Theorem C19_hstack_rows : forall m1 m2 ms i, let all := m1 :: m2 :: ms in
   forallb (fun x => Nat.eqb (rows_of x) (rows_of m1)) all = true -> (i < rows_of m1)%nat ->
